@@ -119,17 +119,13 @@ def perturb_params(params, fold=1, lower_bound=None, upper_bound=None):
     """
     pnew = params * 2**(fold * (2*numpy.random.uniform(size=len(params))-1))
     if lower_bound is not None:
-        for ii,bound in enumerate(lower_bound):
-            if bound is None:
-                lower_bound[ii] = -numpy.inf
-        lower_bound = numpy.asarray(lower_bound, dtype=float)
+        lower_bound = numpy.asarray([-numpy.inf if bound is None else bound
+                                     for bound in lower_bound], dtype=float)
         # Stay 1% inside the bound, whatever its sign
         pnew = numpy.maximum(pnew, numpy.where(lower_bound < 0, 0.99, 1.01)*lower_bound)
     if upper_bound is not None:
-        for ii,bound in enumerate(upper_bound):
-            if bound is None:
-                upper_bound[ii] = numpy.inf
-        upper_bound = numpy.asarray(upper_bound, dtype=float)
+        upper_bound = numpy.asarray([numpy.inf if bound is None else bound
+                                     for bound in upper_bound], dtype=float)
         pnew = numpy.minimum(pnew, numpy.where(upper_bound < 0, 1.01, 0.99)*upper_bound)
     return pnew
 
